@@ -1,6 +1,6 @@
 (* Props/C16.v — property C16: schema-printing contexts collect definitions independently of call order.
    Statements only. *)
-From Beff Require Import Model.Schema Proofs.C16.
+From Beff Require Import Model.Schema Proofs.C16 Proofs.C16Refs.
 
 (* ---- the returned schema and every stored definition body are functions of the validator alone: whatever the
         state of the context (what is already collected or in progress) and whatever the remaining fuel, two
@@ -48,6 +48,39 @@ Example C16_order_independent_example :
   run_hist [c16_p1; c16_p2] = run_hist [c16_p2; c16_p1; c16_p2; c16_p1] /\ run_hist [c16_p1; c16_p2] <> None.
 Proof. split; [vm_compute; reflexivity|vm_compute; discriminate]. Qed.
 
+(* ---- every $ref resolves: after any history of successful schemaWithContext calls on one context (any validators,
+        any fuel, any configuration: ref template, container key, overrides) nothing is left in progress, and every
+        reference (a "$ref" keyword anywhere outside the key position of a `properties` map, or a target of a
+        discriminator mapping) of every returned schema and of every stored definition is `getRef(n)` for a name n
+        whose definition is in the export. `reach` / `sref` / `resolves` are defined in Proofs/C16Refs.v. ---- *)
+Theorem C16_every_ref_resolves_in_the_final_export :
+  forall env cf c outs,
+    reach env cf c outs ->
+    in_progress c = [] /\
+    (forall j s, In j outs -> sref j s -> resolves cf c s) /\
+    (forall n b s, assoc n (collected c) = Some b -> sref b s -> resolves cf c s).
+Proof. exact every_ref_resolves. Qed.
+
+(* non-vacuity: a two-call history over the recursive family above is reachable, returns schemas with references and
+   stores definitions with references *)
+Example C16_refs_nonvacuous :
+  exists c outs, reach c16_env default_conf c outs /\
+                 (exists j s, In j outs /\ sref j s) /\ (exists n b s, assoc n (collected c) = Some b /\ sref b s).
+Proof.
+  destruct (schema c16_env default_conf Contextual 50 [] None empty_ctx c16_p1) as [[j1 c1]|e] eqn:E1; [|vm_compute in E1; discriminate E1].
+  destruct (schema c16_env default_conf Contextual 50 [] None c1 c16_p2) as [[j2 c2]|e] eqn:E2;
+    [|vm_compute in E1; injection E1 as <- <-; vm_compute in E2; discriminate E2].
+  exists c2, (([] ++ [j1]) ++ [j2]). split; [|split].
+  - eapply reach_step; [eapply reach_step; [apply reach_nil|exact E1]|exact E2].
+  - vm_compute in E1. injection E1 as <- <-.
+    eexists; eexists; split; [left; reflexivity|].
+    eapply sr_props; [right; left; reflexivity|left; reflexivity|]. apply sr_here. left; reflexivity.
+  - vm_compute in E1. injection E1 as <- <-. vm_compute in E2. injection E2 as <- <-.
+    exists "T". eexists. eexists. split; [vm_compute; reflexivity|].
+    eapply sr_props; [right; left; reflexivity|right; left; reflexivity|]. apply sr_here. left; reflexivity.
+Qed.
+
 Print Assumptions C16_schema_independent_of_context.
 Print Assumptions C16_print_preserves_context_invariant.
 Print Assumptions C16_collected_ref_is_noop.
+Print Assumptions C16_every_ref_resolves_in_the_final_export.
